@@ -106,13 +106,15 @@ Record shapes := mkShapes {
   (* SplitWriter.__init__: `self.is_stdout = parsed.netloc in (...) and parsed.path == ...`: the values each part of
      urlparse(self.path) is tested against (None: that part is not tested) *)
   sh_split_stdout_netloc : option (list string);
-  sh_split_stdout_path : option (list string)
+  sh_split_stdout_path : option (list string);
+  sh_exit_exc : list mcall           (* AbstractWriter.__exit__ when the block is left by an exception *)
 }.
 
 (* ------------------------------------------------------------------------------------------------ *)
 (* one writer on one file                                                                             *)
 
-Inductive op := Write (r : rec) | Flush | Close | WithExit | Del.
+(* WithExit: the with-block is left normally; WithExitExc: it is left by an exception (__exit__ gets the exception) *)
+Inductive op := Write (r : rec) | Flush | Close | WithExit | WithExitExc | Del.
 Inductive outcome := Ok | Raised.
 
 Record wstate := mkW {
@@ -276,6 +278,7 @@ Definition step (k : adapter) (st : wstate) (o : op) : wstate * outcome :=
   | Flush => do_flush k st
   | Close => do_close k st
   | WithExit => do_calls k st (sh_exit sh)
+  | WithExitExc => do_calls k st (sh_exit_exc sh)
   | Del => do_calls k st (sh_del sh)
   end.
 
@@ -411,6 +414,7 @@ Definition split_step (k : adapter) (count : nat) (stdout : bool) (st : sstate) 
   | Flush => split_flush k st
   | Close => split_close k st
   | WithExit => split_calls k st (sh_exit sh)
+  | WithExitExc => split_calls k st (sh_exit_exc sh)
   | Del => split_calls k st (sh_del sh)
   end.
 
